@@ -16,6 +16,7 @@ def run(ck, fb):
     r08f(ck, fb)
     r08g(ck, fb)
     r08h(ck, fb)
+    r08j(ck, fb)
     ck.borrow('rules.c05', {'R05h': 'R08i'}, 'the membership saved when a snapshot is installed must be the one recorded in that snapshot')
 
 
@@ -246,3 +247,56 @@ def r08h(ck, fb, R='R08h'):
         ck.info(R, 'finalize_snapshot_installation %s a last-applied index' % ('records' if sv else 'does not record'))
     ld = [x for x in fb.tree(SA + 'load_snapshot')[1:] if x.calls(re.escape(SA + 'do_load_snapshot') + '$')]
     ck.require(len(ld) >= 1, R, 'load_snapshot:loads', b.where(), 'load_snapshot no longer loads the catalogued snapshot')
+
+
+def r08j(ck, fb):
+    """decided inside the Raft core the repository builds against (crate async_raft_ext, extracted by bin/extract_dep.sh)"""
+    from rn import facts as F
+    from rn.flow import Taint as T2
+    ck.rule('R08j', 'a lagging node always gets a snapshot: the leader hands out its current snapshot only when it is at most threshold/2 behind the log '
+                    'end (handle_needs_snapshot) and otherwise asks for a new one through trigger_log_compaction_if_needed. That request must not be '
+                    'subject to the periodic "threshold entries since the last snapshot" test - the early return on that test has to depend on a '
+                    'parameter the caller sets (upstream: force). Otherwise nothing is sent and nothing is built whenever the last snapshot is '
+                    'between threshold/2 and threshold behind: the replication stream asks again for ever and the node is never caught up')
+    try:
+        fd = F.load_dep(getattr(fb, 'repo', '/repo'), 'async_raft_ext')
+    except Exception as e:
+        ck.bad('R08j', 'anchor:raft-core-facts', '-', 'the Raft core crate (async_raft_ext) could not be extracted: %s' % e)
+        return
+    hn = [b for b in fd.bodies.values() if re.search(r'LeaderState<.*>>::handle_needs_snapshot', b.name)]
+    trig = [b for b in fd.bodies.values() if re.search(r'RaftCore::<.*>::trigger_log_compaction_if_needed$', b.name)]
+    calls = [s0 for b in hn for s0 in b.calls(r'trigger_log_compaction_if_needed$')]
+    if not ck.require(len(hn) >= 1 and len(trig) == 1 and len(calls) >= 1, 'R08j', 'anchor:needs-snapshot-path', '-',
+                      'handle_needs_snapshot -> trigger_log_compaction_if_needed not found in this Raft core (%d, %d, %d): the rule does not know it' % (len(hn), len(trig), len(calls))):
+        return
+    t = trig[0]
+    ck.analysed(t)
+    # the early returns of the trigger that are decided by the snapshot policy's threshold
+    thr = T2(t, place_src=lambda p: any(isinstance(e, dict) and e.get('f') == 'snapshot_policy' for e in (p.get('p', []) if isinstance(p, dict) else [])))
+    par = T2(t, local_src=list(range(2, t.argc + 1)))
+    gates = []
+    for i, blk in enumerate(t.blocks):
+        tt = blk['t']
+        if tt['k'] == 'switch' and thr.op_tainted(tt['discr']):
+            gates.append((i, par.op_tainted(tt['discr'])))
+    # a switch on the policy enum itself (single variant) is not the gate: keep comparisons only
+    gates = [(i, p) for (i, p) in gates if cfg.describe_operand(t, t.blocks[i]['t']['discr']).get('k') != 'discr']
+    if not ck.require(len(gates) >= 1, 'R08j', 'anchor:threshold-gate', t.where().split('/src/')[-1], 'no return gated by the snapshot threshold found in the trigger'):
+        return
+    # starting the compaction = assigning snapshot_state; a path from the gate to a return that neither starts it nor asks a parameter is the defect
+    starts = set(bb for (o, f, bb, st) in t.field_writes() if f == 'snapshot_state')
+    parsw = set(i for i, blk in enumerate(t.blocks) if blk['t']['k'] == 'switch' and par.op_tainted(blk['t']['discr']))
+    bad_gate = None
+    for (i, p) in gates:
+        if p:
+            continue
+        for (v, tb) in list(t.blocks[i]['t']['targets']) + [('otherwise', t.blocks[i]['t']['otherwise'])]:
+            r = cfg.reach_from(t, [tb], blocked_blocks=list(starts | parsw))
+            if tb not in starts and tb not in parsw and any(x in r or x == tb for x in t.return_blocks()):
+                bad_gate = i
+    ck.floor('R08j', 'compaction start sites in the trigger', len(starts), 1)
+    ck.require(bad_gate is None, 'R08j', 'raft-core:needed-snapshot-not-gated-by-period', t.where(bad_gate if bad_gate is not None else gates[0][0]).split('/src/')[-1],
+               'trigger_log_compaction_if_needed returns when fewer than `threshold` entries were applied since the last snapshot, whoever asks: real '
+               'binary, threshold 10, 8 configs on node 1, node 2 joins (last snapshot 6 entries behind): after 30 s node 2 is still NonVoter with '
+               'last_log_index 0 and answers 404, the leader spins at about 90 % CPU; four more writes unstick it',
+               'the gate depends on a parameter of the caller')
